@@ -410,6 +410,35 @@ fn case(line: &str) -> String {
     out
 }
 
+/// Like `verif_harness::for_each_case`, but the panic message is part of the result line, so that
+/// check.py can tell the documented load flakiness ("index still in use", index.rs: a 100 ms wait
+/// for worker threads inside `check`) from a panic of the code under test.
 fn main() {
-    for_each_case(case);
+    use std::io::{BufRead, Write};
+    static LAST: std::sync::Mutex<String> = std::sync::Mutex::new(String::new());
+    std::panic::set_hook(Box::new(|info| {
+        let msg = info.payload().downcast_ref::<&str>().map(|s| (*s).to_string())
+            .or_else(|| info.payload().downcast_ref::<String>().cloned()).unwrap_or_default();
+        let loc = info.location().map(|l| format!("{}:{}", l.file(), l.line())).unwrap_or_default();
+        if let Ok(mut l) = LAST.lock() {
+            *l = format!("{msg} at {loc}").replace('\n', " ");
+        }
+    }));
+    let args: Vec<String> = std::env::args().collect();
+    let rd: Box<dyn BufRead> = if args.len() > 1 && args[1] != "-" {
+        Box::new(std::io::BufReader::new(fs::File::open(&args[1]).expect("open cases")))
+    } else {
+        Box::new(std::io::BufReader::new(std::io::stdin()))
+    };
+    let out = std::io::stdout();
+    let mut out = std::io::BufWriter::new(out.lock());
+    for line in rd.lines() {
+        let line = line.expect("read");
+        if line.trim().is_empty() {
+            continue;
+        }
+        let r = std::panic::catch_unwind(|| case(&line))
+            .unwrap_or_else(|_| format!("panic {}", LAST.lock().map(|l| l.clone()).unwrap_or_default()));
+        writeln!(out, "{r}").unwrap();
+    }
 }
